@@ -1,4 +1,5 @@
 import JmesVerif.Lemmas.Compare
+import JmesVerif.Lemmas.CodeEquiv
 /-!
 # C10 — equality and ordering operators obey their algebraic contract
 
@@ -360,6 +361,16 @@ example : (Val.arr [.str "a", .obj [("k", .null)]]).WF ∧ (Val.arr [.str "a"]).
 example : BothFinite (.flt (.fin false 4503599627370496 (-52))) (.flt (.fin false 4503599627370496 (-51))) := by
   simp [BothFinite, Num.toF64, F64.isFinite]
 
+
+/-! ### the operator gate of `Variable::compare` as re-translated from variable.rs on every run
+
+which comparators require two numbers, and which Rust operator each comparator applies, are read off the source;
+the translated gate composed with the value-level relation is the model's `Val.compare`. -/
+open Generated.Code in
+theorem C10_translated_compare_gate (c : Cmp) (a b : Val) :
+    Val.compare c a b = (Generated.Code.compare (cmpOf c) (isNum a) (isNum b)).map (relEval a b) :=
+  gen_compare_gate_eq c a b
+
 end JmesVerif
 
 #print axioms JmesVerif.C10_eq_symm
@@ -371,3 +382,4 @@ end JmesVerif
 #print axioms JmesVerif.C10_order_consistent
 #print axioms JmesVerif.C10_trichotomy
 #print axioms JmesVerif.C10_le_iff_lt_or_eq
+#print axioms JmesVerif.C10_translated_compare_gate
